@@ -354,6 +354,26 @@ def algebra_shape(chk, F):
             ok = is_sum and nz
     chk.decide(ok, "algebra-shape", fk, "sum-dropping-zero", fn.where(), "the merge closure returns Some(a + b) only when a + b != 0, else None",
                "the merge closure is not `if a + b != 0 { Some(a + b) } else { None }` (returns %s)" % detail[:120])
+    # `products add base-unit exponents ... Rink never returns a number whose dimensionality differs from this algebra`: the sum is a
+    # machine addition of two i64 exponents.  Plain `a + b` (core's forwarding impl for references carries
+    # #[rustc_inherit_overflow_checks]) panics in a build with overflow checks and wraps in a release build: 33 doublings of
+    # m^2147483647 give 1 / meter^8589934592.  The sum must be a checked addition whose overflow is not a number.
+    plain = False
+    checked = False
+    for c in cls:
+        for bb, t in c.calls():
+            if "callee" in t:
+                n = t["callee"]["path"]
+                plain = plain or bool(__import__("re").search(r"as core::ops::arith::Add<&?i64>>::add$", n))
+                checked = checked or n.endswith("<impl i64>::checked_add")
+        for bb, blk in enumerate(c.blocks):
+            t = blk["term"]
+            if t["k"] == "assert" and t["msg"].get("kind") == "Overflow" and t["msg"].get("op") == "Add":
+                plain = True
+    chk.decide(checked and not plain, "algebra-shape", fk, "exponent-sum-cannot-wrap", fn.where(),
+               "exponents are added with checked_add",
+               "exponents are added with a plain `a + b`: m^2147483647 multiplied by itself 33 times (`ans*ans`) panics with \"attempt to add "
+               "with overflow\" in a debug build and answers `1 / meter^8589934592` in a release build")
     # Div = Mul o recip
     fn = F.find(CORE, "<&'a %s as core::ops::arith::Div>::div" % DIM, exact=True)
     names = [t["callee"]["path"] for _, t in fn.calls() if "callee" in t]
